@@ -64,6 +64,11 @@ def make_inputs(seed, n_family, n_mut, n_raw, with_android=True, size=1.0, featu
         q = src.find(b'"')
         v = b'// caf\xe9 \xff\n' + (src[:q + 1] + b'\xe9\xfc ' + src[q + 1:] if q >= 0 else src) + b'\n/* na\xefve \xc3 */ class L\xe9 { int \xe9 = 1 + 2; }\n'
         cases.append(dict(id='l%d' % i, path='latin/L%d.java' % i, data=v, origin='mutant'))
+    # a UTF-8 byte-order mark in front of family files (LF and CRLF ones, one-liners included)
+    for i, src in enumerate(fam[:max(2, n_mut // 60)] if n_mut else []):
+        cases.append(dict(id='b%d' % i, path='bom/B%d.java' % i, data=b'\xef\xbb\xbf' + src, origin='mutant'))
+    if n_mut:
+        cases.append(dict(id='b_one', path='bom/One.java', data=b'\xef\xbb\xbfclass One { int f() { return 1 + 2; } }', origin='mutant'))
     # minimal tokens inserted into / substituted in family files (a share of the mutant budget)
     k = 0
     for src in fam[:max(1, n_mut // 150)] if n_mut else []:
@@ -301,4 +306,58 @@ def disk_locations(cases, workdir, harness):
         b = oracle_location(dict(case=dict(data=c['data'], path=f.decode('utf-8', 'surrogateescape')), impl_nodes=nodes))
         if b:
             bad.append(dict(what='entity location does not denote the text on disk', case=c, detail=b[:3]))
+    return stats, bad
+
+
+def disk_census(cases, recs, workdir, harness, ncopies=12):
+    """C03 through the real scan of a whole project: family files are written to disk TOGETHER with byte-identical
+    copies under other paths and a hard link; every file must be represented by the entities the builder gives for
+    its bytes (same multiset of kind / line / snippet as the in-memory run). -> (stats, failures)"""
+    import shutil
+    from collections import Counter
+    root = os.path.join(workdir, 'census')
+    shutil.rmtree(root, ignore_errors=True)
+    expect = {}
+    fam = [c for c in cases if c['origin'] == 'family' and not os.path.isabs(c['path'])][:ncopies]
+    for c in fam:
+        r = recs.get(c['id'])
+        if not r or r.get('impl_outcome') != 'ok':
+            continue
+        want = Counter((unhx(n['type']), int(n['line']), unhx(n['snippet'])) for n in r['impl_nodes'])
+        base = os.path.basename(c['path'])
+        for rel in ('a/%s/%s' % (c['id'], base), '.vendor/%s/%s' % (c['id'], base), 'zz/copy.of/%s/%s' % (c['id'], base)):
+            p = os.path.join(root, rel)
+            os.makedirs(os.path.dirname(p), exist_ok=True)
+            with open(p, 'wb') as f:
+                f.write(c['data'])
+            expect[p.encode('utf-8')] = (want, c)
+        lk = os.path.join(root, 'a/%s/Linked_%s' % (c['id'], base))
+        try:
+            os.link(os.path.join(root, 'a/%s/%s' % (c['id'], base)), lk)
+            expect[lk.encode('utf-8')] = (want, c)
+        except OSError:
+            pass
+    out = os.path.join(workdir, 'census_dump.txt')
+    p = subprocess.run([harness, 'init-dump', root, out], capture_output=True, timeout=1800, env=dict(os.environ, HOME=workdir))
+    stats, bad = Counter(census_files=len(expect)), []
+    if p.returncode != 0:
+        return stats, [dict(what='graph.Initialize on the project failed: rc=%d %s' % (p.returncode, p.stderr.decode(errors='replace')[-300:]))]
+    got = {}
+    for line in open(out):
+        if line.startswith('NODE '):
+            n = parse_kv(line.rstrip('\n'))
+            got.setdefault(unhx(n['file']), Counter())[(unhx(n['type']), int(n['line']), unhx(n['snippet']))] += 1
+    for f, (want, c) in expect.items():
+        g = got.get(f, Counter())
+        stats['census_entities'] += sum(g.values())
+        if g != want:
+            miss = list((want - g).items())[:2]
+            extra = list((g - want).items())[:2]
+            bad.append(dict(what='a file of a project is not represented by the entities of its own content (byte-identical copies elsewhere in the project)',
+                            case=c, detail=dict(file=f.decode('utf-8', 'replace'), entities=sum(g.values()), expected=sum(want.values()),
+                                                missing=[(k[0].decode(), k[1], k[2][:60].decode('utf-8', 'replace')) for k, _ in miss],
+                                                unexpected=[(k[0].decode(), k[1], k[2][:60].decode('utf-8', 'replace')) for k, _ in extra])))
+    for f in got:
+        if f not in expect:
+            bad.append(dict(what='an entity is reported for a file that is not in the project', detail=dict(file=f.decode('utf-8', 'replace'))))
     return stats, bad
